@@ -418,6 +418,12 @@ func (b *StatefulBlock[I, O, A]) notifyAccepted(ctx context.Context) error {
 //
 // [Decidable]: https://github.com/ava-labs/avalanchego/blob/abb1a9a6a21c3dbce6dff5cdcea03173119a5f46/snow/decidable.go#L16
 func (b *StatefulBlock[I, O, A]) Reject(ctx context.Context) error {
+	// Serialize with FinishStateSync: it re-verifies a snapshot of the processing blocks and
+	// only then subscribes to their rejections, so a block rejected in between would stay
+	// unresolved forever (or its children would fail to find it).
+	b.vm.chainLock.Lock()
+	defer b.vm.chainLock.Unlock()
+
 	ctx, span := b.vm.tracer.Start(ctx, "StatefulBlock.Reject")
 	defer span.End()
 
